@@ -62,6 +62,42 @@ def _probe_job(job):
         shutil.rmtree(out_dir, ignore_errors=True)
 
 
+def _ess_probe_job(job):
+    """The ESS side of the termination test: a completed run is saved and resumed in a fresh sampler with the smallest n_total its
+    history does NOT yet satisfy (floor(ESS) + 1, so ESS is in [n_total - 1, n_total)): run() must go on until ESS >= n_total."""
+    core.import_repo()
+    import math
+    import shutil
+    import tempfile
+    import warnings
+
+    warnings.filterwarnings("ignore")
+    import numpy as np
+    from vlib import drivers as dr, psrun as ps
+
+    out_dir = tempfile.mkdtemp(prefix="c12ess_")
+    try:
+        conf = job["conf"]
+        rec = ps.Recorder(2, have_blobs=(conf.get("evaluation") == "blobs"), label=job["label"])
+        _, s, tr0 = dr.record_run(conf, n_total=job["n_total"], seed=job["seed"], label=job["label"] + "|base", out_dir=out_dir, rec=rec)
+        if tr0 is None or any(e["ev"] == "Raised" for e in tr0["events"]):
+            return []
+        logw, _ = s.state.compute_logw_and_logz(1.0)
+        w = np.exp(logw - np.max(logw))
+        E = float(np.sum(w) ** 2 / np.sum(w ** 2))
+        path = os.path.join(out_dir, "done.state")
+        with ps.hooks_on(rec):
+            s.save_state(path)
+        s2, _ = dr.build_sampler(conf, rec, out_dir=out_dir)
+        rec.attach(s2)
+        nt = int(math.floor(E)) + 1
+        _, _, tr = dr.record_run(conf, n_total=nt, seed=998, label=job["label"] + f"|resume n_total={nt} (history ESS {E:.3f})", resume=path, out_dir=out_dir, rec=rec, sampler=s2)
+        tr["meta"]["probe_ess"] = E
+        return [tr]
+    finally:
+        shutil.rmtree(out_dir, ignore_errors=True)
+
+
 def termination_probe(ck):
     from vlib import procs, psrun
 
@@ -73,9 +109,20 @@ def termination_probe(ck):
         if st != "ok":
             raise RuntimeError("termination probe worker failed: " + str(r)[:400])
         traces += r
+    ejobs = [dict(conf=dict(c, n_particles=8), seed=1290 + i + 50 * ck.seed, label=f"essprobe#{i}", n_total=16 + 3 * i)
+             for i, c in enumerate([dict(clustering=False), dict(clustering=True, sample="rwm"), dict(clustering=False, resample="syst"), dict(evaluation="vector"),
+                                    dict(clustering=False, target="bimodal"), dict(clustering=False, n_dim=3), dict(sample="rwm", clustering=False), dict(clustering=False, ess_ratio=1.5)])]
+    eres = procs.run(_ess_probe_job, ejobs, procs=len(ejobs), timeout=600)
+    fracs = []
+    for st, r in eres:
+        if st != "ok":
+            raise RuntimeError("ESS probe worker failed: " + str(r)[:400])
+        traces += r
+        fracs += [t["meta"]["probe_ess"] % 1.0 for t in r]
     fails, stt = psrun.validate(traces)
     sysrun.attribute(ck, "C12", traces, fails)
-    return {"termination_probe_runs": len(traces), "termination_probe_states": stt["states"]}
+    return {"termination_probe_runs": len(traces), "termination_probe_states": stt["states"],
+            "ess_probe_histories_with_fractional_part_above_half": sum(1 for f in fracs if f >= 0.5), "ess_probe_histories": len(fracs)}
 
 
 def main():
